@@ -273,7 +273,8 @@ CHECKS = {
              "majmin => triads, sevenths => tetrads, a tetrads match is never a mirex mismatch, the vocabularies of "
              "majmin / sevenths / mirex / *_inv, X always ignored; the 12 real functions are compared with the model "
              "on ~5,200 labels (2,064 distinct encodings) and the lattice is asserted directly on the real functions. "
-             "rotate_bitmap_to_root (mirex) is REGENERATED from the source and proved equal to the model's rotation (Props/C11_GenFns.lean).",
+             "rotate_bitmap_to_root (mirex) is REGENERATED from the source and proved equal to the model's rotation (Props/C11_GenFns.lean)."
+             " The twelve comparison functions, validate and rotate_bitmaps_to_roots are REGENERATED from the source (translate/chordcmp.py -> MirGen/ChordCmp.lean over MirModel/PyCmp.lean) and proved equal to the row model applied to the rows of encode_many for ALL label lists, exceptions included (Props/C11_GenCmp.lean).",
         note="Props/C11_Labels.lean bridges to C10: everything chord.encode can return is Reachable (encode_reachable), the "
              "rule model's quality bitmaps equal the regenerated tables, and the lattice is restated for grammar-derivable "
              "labels. Known finding: majmin_inv compares a maj/min reference whose bass is 8-11 semitones "
